@@ -197,6 +197,8 @@ def gen_case(seed, prop, idx):
         g.hard = True
     elif prop == "C15":
         case["mode"] = ["r+", "r+", "r", "a", "w+"][idx % 5]
+    if prop in ("C13", "C15", "C16") and idx % 3 == 1:
+        case["flush"] = False         # rows may sit in the handle's buffer: a rewrite must still flush what it swaps in
     if prop in ("C12", "C13", "C04") and idx % 5 == 3:
         case["symlink"] = True
     elif prop in ("C12", "C13", "C04", "C16") and idx % 5 == 1:
